@@ -10,8 +10,16 @@ import (
 
 type floatDecoder struct {
 	op         func(unsafe.Pointer, float64)
+	bitSize    int // width of the destination: 32 or 64 ( zero means 64 )
 	structName string
 	fieldName  string
+}
+
+func (d *floatDecoder) parseBitSize() int {
+	if d.bitSize == 32 {
+		return 32
+	}
+	return 64
 }
 
 func newFloatDecoder(structName, fieldName string, op func(unsafe.Pointer, float64)) *floatDecoder {
@@ -177,7 +185,7 @@ func (d *floatDecoder) DecodeStream(s *Stream, depth int64, p unsafe.Pointer) er
 		return nil
 	}
 	str := *(*string)(unsafe.Pointer(&bytes))
-	f64, err := strconv.ParseFloat(str, 64)
+	f64, err := strconv.ParseFloat(str, d.parseBitSize())
 	if err != nil {
 		return errors.ErrSyntax(err.Error(), s.totalOffset())
 	}
@@ -202,7 +210,7 @@ func (d *floatDecoder) Decode(ctx *RuntimeContext, cursor, depth int64, p unsafe
 		return 0, errors.ErrUnexpectedEndOfJSON("float", cursor)
 	}
 	s := *(*string)(unsafe.Pointer(&bytes))
-	f64, err := strconv.ParseFloat(s, 64)
+	f64, err := strconv.ParseFloat(s, d.parseBitSize())
 	if err != nil {
 		return 0, errors.ErrSyntax(err.Error(), cursor)
 	}
